@@ -41,7 +41,7 @@ pub fn prop() -> Prop {
             Tier::Quick => 60,
             Tier::Thorough => 600,
         },
-        required_probes: &["mode_good", "mode_constant", "mode_repeating32", "mode_repeating64", "mode_counter", "mode_replay", "preprocess_k_ge_4", "same_stream_two_signers", "same_signer_two_streams", "equal_nonces_explained", "sim_commit_checked"],
+        required_probes: &["other_nonce_entry_points", "mode_good", "mode_constant", "mode_repeating32", "mode_repeating64", "mode_counter", "mode_replay", "preprocess_k_ge_4", "same_stream_two_signers", "same_signer_two_streams", "equal_nonces_explained", "sim_commit_checked"],
         prepare: None,
     }
 }
@@ -216,6 +216,30 @@ fn exec_c<C: Suite>(scen: &Scenario) -> Exec {
         }
         if rng.total() != 64 * (1 + k as usize) {
             return Exec::Violation(Violation::new("C15", "C15.random_source_consumption", format!("[{mname}] commit + preprocess({k}) consumed {} bytes, expected {}", rng.total(), 64 * (1 + k as usize))), rep);
+        }
+        // the other public routes to a nonce pair: SigningNonces::new, the ciphersuite crate's own round1::commit, and two
+        // single Nonce::new calls assembled with from_nonces - all on the same stream, after the calls above
+        {
+            let before = rng.draws.len();
+            let nn = SigningNonces::<C>::new(&shares[0], &mut rng);
+            let cc = SigningCommitments::<C>::from(&nn);
+            if let Some(v) = check_pairs::<C>(&mut rep, &format!("[{mname}] SigningNonces::new of signer 0"), &shares[0], &rng, before, &[nn], &[cc], &mut obs, false) {
+                return Exec::Violation(v, rep);
+            }
+            let before = rng.draws.len();
+            let (nw, cw) = C::w_commit(&shares[0], &mut rng);
+            if let Some(v) = check_pairs::<C>(&mut rep, &format!("[{mname}] the suite crate's round1::commit of signer 0"), &shares[0], &rng, before, &[nw], &[cw], &mut obs, false) {
+                return Exec::Violation(v, rep);
+            }
+            let before = rng.draws.len();
+            let h = frost::round1::Nonce::<C>::new(&shares[0], &mut rng);
+            let b = frost::round1::Nonce::<C>::new(&shares[0], &mut rng);
+            let nn = SigningNonces::<C>::from_nonces(h, b);
+            let cc = *nn.commitments();
+            if let Some(v) = check_pairs::<C>(&mut rep, &format!("[{mname}] two Nonce::new calls of signer 0"), &shares[0], &rng, before, &[nn], &[cc], &mut obs, false) {
+                return Exec::Violation(v, rep);
+            }
+            rep.probe("other_nonce_entry_points");
         }
         if shares.len() >= 2 {
             let mut rng2 = SimRng::new(mode.clone());
